@@ -76,10 +76,21 @@ func suiteBlockProof(c *Ctx) {
 		for i := 0; i < n; i++ {
 			members = append(members, interfaces.CommitteeMember{Id: memberId(i), Weight: primitives.MemberWeight(ws[i])})
 		}
-		w.Committee = func(h uint64) []interfaces.CommitteeMember { return members }
+		h := uint64(1 + r.Intn(5))
+		// the committee depends on the height: every other height has partly other members and other weights, so a lookup
+		// with the wrong height (e.g. the previous block's) judges the proof against the wrong committee
+		var others []interfaces.CommitteeMember
+		for i := 0; i < n; i++ {
+			others = append(others, interfaces.CommitteeMember{Id: memberId(i + 2), Weight: primitives.MemberWeight(1 + uint64((i*7+3)%5))})
+		}
+		w.Committee = func(hh uint64) []interfaces.CommitteeMember {
+			if hh == h {
+				return members
+			}
+			return others
+		}
 		node := NewRealNode(w, 0, memberId(0), nil)
 		km := node.KM
-		h := uint64(1 + r.Intn(5))
 		blk := &FakeBlock{H: h, Id: uint64(it)}
 		v := uint64(r.Intn(3))
 		// the genuine ingredients
